@@ -76,6 +76,7 @@ type VC struct {
 	tparamsEnv map[string]types.Type
 	callOrd map[ssa.Instruction]int
 	epochs  int
+	refArrays map[string]bool // heap arrays whose Int values are references
 	provingLemma *Axiom
 	cbCount int
 	curInstr ssa.Instruction
@@ -85,7 +86,7 @@ type VC struct {
 
 func newVC(w *World, specs *Specs, tt *TypeTable) *VC {
 	return &VC{w: w, specs: specs, tt: tt, d: newDecls(), arrays: map[string]Sort{}, concTypes: map[int]types.Type{}, ifaceTypes: map[int]*types.Interface{},
-		funcIDs: map[string]int{}, usedTrusted: map[string]bool{}, maxPaths: 400, pureAxiomsDone: map[string]bool{}}
+		funcIDs: map[string]int{}, refArrays: map[string]bool{}, usedTrusted: map[string]bool{}, maxPaths: 400, pureAxiomsDone: map[string]bool{}}
 }
 
 func (vc *VC) typeID(t types.Type) int {
@@ -158,11 +159,63 @@ func (vc *VC) hget(h *Heap, name string, s Sort) Term {
 		return t
 	}
 	if h.epoch != "" {
-		t := vc.d.declConst(name+"@"+h.epoch, s)
+		sym := name + "@" + h.epoch
+		fresh := !vc.d.seen[sym]
+		t := vc.d.declConst(sym, s)
 		h.cur[name] = t
+		if fresh && name != "top" {
+			if ax := vc.wfFact(name, t, s, vc.hget(h, "top", "Int")); ax != "" {
+				vc.d.axiom(ax)
+			}
+		}
 		return t
 	}
-	return vc.d.declConst(name, s)
+	fresh := !vc.d.seen[name]
+	t := vc.d.declConst(name, s)
+	if fresh && name != "top" {
+		if ax := vc.wfFact(name, t, s, vc.d.declConst("top", "Int")); ax != "" {
+			vc.d.axiom(ax)
+		}
+	}
+	return t
+}
+
+// wfFact: heap well-formedness of one version of a heap array - every reference stored in it denotes an object that is
+// allocated in that heap (needed under quantifiers, where facts about individual reads cannot be hoisted).
+func (vc *VC) wfFact(name string, arr Term, s Sort, top Term) Term {
+	if strings.HasPrefix(name, "GV_") || name == "Tags" || strings.HasPrefix(name, "IterVisited_") {
+		return ""
+	}
+	parts := arraySorts(s)
+	if parts == nil {
+		return ""
+	}
+	valFact := func(v Term, vs Sort) Term {
+		switch vs {
+		case "Slice":
+			return and(app("<=", app("sid", v), top), app(">=", app("sid", v), "0"), app(">=", app("slen", v), "0"), app(">=", app("soff", v), "0"), implies(eq(app("sid", v), "0"), eq(app("slen", v), "0")))
+		case "Iface":
+			return implies(not(eq(v, "iface_nil")), app("<=", app("pl", v), top))
+		case "Int":
+			if vc.refArrays[name] {
+				return and(app("<=", v, top), app(">=", v, "0"))
+			}
+		}
+		return ""
+	}
+	if inner := arraySorts(parts[1]); inner != nil {
+		v := app("select", app("select", arr, "wx"), "wy")
+		if f := valFact(v, inner[1]); f != "" {
+			vc.d.declSort(inner[0])
+			return fmt.Sprintf("(forall ((wx %s) (wy %s)) (! %s :pattern (%s)))", parts[0], inner[0], f, v)
+		}
+		return ""
+	}
+	v := app("select", arr, "wx")
+	if f := valFact(v, parts[1]); f != "" {
+		return fmt.Sprintf("(forall ((wx %s)) (! %s :pattern (%s)))", parts[0], f, v)
+	}
+	return ""
 }
 
 // toAny models the conversion of a value of static type t to an interface value.
@@ -263,6 +316,9 @@ func (vc *VC) stepField(h *Heap, cur TV, idx int) TV {
 		return TV{T: app(arr, cur.T), S: goSType(f.Type())}
 	}
 	fs := sortOf(f.Type())
+	if isRefLike(f.Type()) {
+		vc.refArrays[arr] = true
+	}
 	return TV{T: app("select", vc.hget(h, arr, arrSort(fs)), cur.T), S: goSType(f.Type())}
 }
 
